@@ -29,8 +29,30 @@ namespace pika::verif {
         sink_t s = sink.load(std::memory_order_acquire);
         if (s != nullptr) s(phase, site, obj, a, b);
     }
+
+    // RAII pair: PRE at construction, POST at scope exit; `f` is evaluated at both ends and the
+    // two values are the payload (used for compare-exchange sites: before/after words)
+    template <typename F>
+    struct scope
+    {
+        char const* site_;
+        void const* obj_;
+        F f_;
+        std::uint64_t before_;
+        scope(char const* site, void const* obj, F f) noexcept
+          : site_(site)
+          , obj_(obj)
+          , f_(f)
+        {
+            emit(1, site_, obj_);
+            before_ = static_cast<std::uint64_t>(f_());
+        }
+        ~scope() { emit(2, site_, obj_, before_, static_cast<std::uint64_t>(f_())); }
+    };
 }    // namespace pika::verif
 
+# define PIKA_VERIF_SCOPE(site, obj, expr)                                                         \
+  ::pika::verif::scope pika_verif_scope_(site, static_cast<void const*>(obj), [&]() noexcept { return (expr); })
 # define PIKA_VERIF_POINT(site, obj, a, b)                                                         \
   ::pika::verif::emit(0, site, static_cast<void const*>(obj), static_cast<std::uint64_t>(a),      \
       static_cast<std::uint64_t>(b))
@@ -45,5 +67,6 @@ namespace pika::verif {
 # define PIKA_VERIF_POINT(site, obj, a, b) ((void) 0)
 # define PIKA_VERIF_PRE(site, obj) ((void) 0)
 # define PIKA_VERIF_POST(site, obj, a, b) ((void) 0)
+# define PIKA_VERIF_SCOPE(site, obj, expr) ((void) 0)
 
 #endif
